@@ -221,6 +221,13 @@ theorem call_hs (st st' : NState) (rnd : Option Nat) (op : NodeOp) (res : OpRes)
   | setMaxCommittedSizePerReady x =>
     simp only [applyOp] at h
     cases h; exact .inl rfl
+  | onEntriesFetched to term aggr =>
+    rcases onEntriesFetched_ok h with h | ⟨-, -, -, raft, hx, h⟩
+    · cases h; exact .inl rfl
+    · cases h
+      rcases hx with hx | hx
+      · exact ofV (hrefl.vf (Res.Post.of_eq (sendAppendAggressively_vf _ _) hx)) rfl
+      · exact ofV (hrefl.vf (Res.Post.of_eq (sendAppend_vf _ _) hx)) rfl
 
 end CC
 end Raft
